@@ -455,6 +455,10 @@ def run(repo, rep, tier):
     rep.rule("R-C15-8", "every parameter of the functions behind this property is read (parametric shapes): none is accepted and then ignored")
     from .shared import unused_parameters
     unused_parameters(repo, rep, "R-C15-8", ("wavespectra.construct", "wavespectra.core.npstats.jonswap", "wavespectra.core.npstats.gaussian"), "parametric shapes")
+    rep.rule("R-C15-9", "(shared with C01) the accessor's dm / dspr that measure a constructed spectrum divide moments taken over one band (no "
+                        "tail-including hs() as the energy total)")
+    from .shared import same_band_ratios
+    same_band_ratios(repo, rep, "R-C15-9")
     rep.rule("R-C15-1", "when hs is requested the last value-changing operation is scaled(spectrum, hs) = (hs/Hs)^2 * spectrum")
     rep.rule("R-C15-2", "each shape is a product of non-negative factors (subtraction only inside exponents / even powers)")
     rep.rule("R-C15-3", "spreading: folded angular distance, windows on the folded distance, normaliser from the same masked array over dir "
